@@ -413,7 +413,7 @@ def run(chk):
     chk.rule("key-wiring", "a key is restored into the same attribute it was dumped from", 12)
     chk.rule("state-attrs", "every state-defining attribute is both dumped and assigned on load", 12)
     chk.rule("crash-points", "from every reachable abstract directory state holding a complete result file, a complete result "
-             "file exists after every file-system effect of dump_dict (exhaustive)", 5)
+             "file exists after every file-system effect of dump_dict (exhaustive)", 3)
     chk.rule("dump-completes", "normal completion of dump_dict leaves the primary result file complete", 1)
 
     io = IO(src, chk)
